@@ -1,9 +1,53 @@
 /-
-  Sipsp.Proofs.NameAddrSpec2 — property C09, the shapes that `NameAddrSpec` does not cover:
-  (1) the `q` parameter for EVERY value text (`nq…`);
-  (2) trailing `;`, empty parameters `;;`, parameters `name=` with an empty value (`n2…`, grammar `NqParams`);
-  (3) rejection of ill-formed values (unterminated `<`, second `<`, unterminated quoted string, …) with verdict and offset;
-  (4) what the single-valued header kinds (From / To) do with a comma, and the bytes after `>` that are ignored.
+  Sipsp.Proofs.NameAddrSpec2 — property C09, the shapes that `NameAddrSpec` does not cover.  Everything is about
+  `parseNameAddrPVal h b o {}` (a new object), ALL buffers within the 65,535-byte limit, ALL offsets, ALL header kinds
+  `h` unless a hypothesis on `multipleValsOk h` says otherwise.  Grammar predicates reused from `NameAddrSpec`:
+  `AddrPrefix`, `NameTail`, `NaQBody`, `ParamAt`, `PList`, `PVal`, `Term`, `Lws`, `Eol`, `Run`.
+
+  (1) the `q` parameter, EVERY value text.
+    * `NqQText val ip fp`: `val` = digits `ip`, optionally `.` and at most three digits `fp`, value at most 1.  The
+      integer part may be EMPTY (`.5`) and may have leading zeros (`001`, `00.5`): the code accepts those.
+    * `nq_setQ_accept`: on a `q` text `setQ` sets Q to the value in thousandths (`qValue`) and nothing else.
+    * `nq_setQ_long`, `nq_setQ_int_nondigit`, `nq_setQ_int_huge`, `nq_setQ_frac_nondigit`, `nq_setQ_range`: which error
+      for which text: more than three bytes after the first dot -> "too long" at the END of the value; a non-digit
+      (second dot, sign, letter) -> "not a number" at the start; integer part above 2^64-1 -> "too long" at the start;
+      value above 1 -> "bad value" at the start.
+    * `nq_setQ_total`: every text is either a `q` text (Q set) or not (Q untouched, error indication set, offset = start
+      or end of the value); `nq_setQ_ok_iff`: the error indication stays clear IFF the text is a `q` text.
+    * `nq_param_q_any`: the same for the effect of the parameter `q=value` (`paramEffect`, the unit of `accAll`).
+  (2) trailing `;`, empty parameters `;;`, `name=` with an empty value.
+    * `NqParams h b i L ve o' e'`: everything after the first `;` up to the end of the value, allowing all of these;
+      `NqEnd`: how the value ends right after a `;` / `=`.  `n2_of_plist`: the old `PList` + `Term` is a special case.
+    * `n2_bracket_params`, `n2_bare_params`: such a value is ACCEPTED (verdict OK / "more values" as the end says); an
+      empty value acts like no value (`vs = ve = 0` in the span list: only `lr` is recognised, `tag=` / `q=` / `expires=`
+      set nothing and raise no error); empty parameters are skipped; the reported parameter span runs from the first
+      named parameter to `ve`, the reported value from its first byte to `ve`, where `ve` INCLUDES a trailing `;` / `=`
+      (not the white space after it) when the line ends, and runs up to the comma (white space included) when a comma
+      ends the value; no named parameter at all -> empty parameter span.
+    * `n2_uri_trailing_semi`, `n2_params_trailing_semi`, `n2_empty_value`: the three shapes spelled out.
+  (3) rejection (verdict, offset, and that the offset lies inside the buffer after the start of the value).
+    * `n3_uri_unterminated`: SP / HT / CR / LF / `<` between `<` and `>` -> "bad character" at that byte.
+    * `n3_empty_uri`: `<>` is NOT rejected: accepted with an empty URI span.
+    * `n3_name_quote_unterminated`, `n3_name_quote_esc_crlf`: a quoted string of the display name (`NqNameOpen`: at
+      the start of the value or after name tokens / closed quoted strings) that is not closed before the line end ->
+      "bad header" (ErrHdrBad) with the offset AFTER the line end; backslash + CR / LF -> "bad character" at the CR / LF.
+    * `n3_param_name_bad`, `n3_param_value_bad`, `n3_param_quote_unterminated`: after any well-formed front part
+      (`NqHeadP`, `NqSeps`): `<` / `>` in a parameter name, `=` / `<` / `>` in a parameter value -> "bad character" at
+      that byte; unterminated quoted parameter value -> "bad header", offset after the line end (offset and verdict
+      only; the partial object is not described).
+    * `n3_name_without_uri`: a display name (two or more tokens / quoted strings, `NqNameOnly`) that is never followed
+      by `<uri>` -> "bad header", offset after the line end.
+  (4) bytes after `>`; the comma in the single-valued header kinds.
+    * `n4_bracket_junk`, `n4_bracket_junk_params`: after `>` every byte other than `;`, white space, line end (and `,`
+      for the multi-valued kinds) is SKIPPED (`NqJunk`), e.g. a second `<uri>`; parameters that follow are attached to
+      the first URI.
+    * `n4_single_comma_ignored` (`n4_single_from_to`: From and To are single-valued): `<uri> , anything-without-";"` is
+      accepted and reported exactly as `<uri>`; `n4_bare_comma`: in a bare URI the comma is a URI byte;
+      `n4_single_comma_after_ws`: `;param[=value] LWS ,` -> "bad character" at the comma.
+  NOT proved here: commas inside parameter names / values of the single-valued kinds in general (they are ordinary
+  bytes, except as first byte, where they are dropped: only tests); the object left behind by the rejections inside a
+  parameter (offset and verdict only); comma-separated lists (`ValList`) whose values use the shapes of (2) / (4);
+  `HNo` and several header lines of one message.
 -/
 import Sipsp.Proofs.NameAddrSpec
 
@@ -388,6 +432,22 @@ theorem nq_param_q_any (b : Buf) (ps pe vs ve : Nat) (a : PAcc) (h1 : ps < pe) (
     show ({ a with paramErr := e, errOffs := trunc16 ve } : PAcc) = _
     rw [trunc16_id (by omega)]
 
+
+/-- the hypotheses of `nq_param_q_any` are satisfiable: `Q=.5` (name in upper case, empty integer part) -/
+example : paramEffect "Q=.5".toUTF8.data 0 1 2 4 {} = { q := 500 } := by
+  have hv : ("Q=.5".toUTF8.data.extract 2 4).toList = [46, 53] := by decide +kernel
+  have hq : NqQText [46, 53] [] [53] := nq_qtext_examples.2.2.2.2.2.1
+  rcases nq_param_q_any "Q=.5".toUTF8.data 0 1 2 4 {} (by decide) (by decide) (by decide) (by decide) (by decide)
+    (by decide +kernel) with ⟨ip, fp, H, he⟩ | ⟨hno, _⟩
+  · rw [hv] at H
+    obtain ⟨e1, e2⟩ := nq_unique [46, 53] [] [46, 53] ip fp rfl (fun c hc => by cases hc) (Or.inr ⟨[53], rfl⟩) H
+    rcases e2 with ⟨e2, _⟩ | e2
+    · cases e2
+    · cases e2; subst e1
+      rw [he]
+      simp [qValue, decOf, decFrom, dval_def]
+  · rw [hv] at hno
+    exact absurd ⟨[], [53], hq⟩ hno
 
 /-- tests (evaluation on concrete texts): `0.5000` -> too long, reported at the end of the value; `2`, `1.001` -> bad
     value; `0.a`, `-1`, `0..` -> not a number; `.5` -> 500 -/
@@ -1399,6 +1459,108 @@ example : (parseNameAddrPVal HdrContact "<a>;t=\"x\r\nX".toUTF8.data 0 {}).1 = 1
 /-- test (evaluation): `<>` is accepted with an empty URI -/
 example : parseNameAddrPVal HdrFrom "<>\r\nX".toUTF8.data 0 {} =
     (4, .ok, { uri := ⟨1, 0⟩, v := ⟨0, 2⟩, type := HdrFrom, state := .fin }) := by decide +kernel
+
+
+/-! #### a display name that is never followed by `<` -/
+
+/-- more display name from `i` up to `w` (token bytes, white space followed by more name, closed quoted strings) -/
+inductive NqTailE (b : Buf) : Nat → Nat → Prop
+  | stop (w : Nat) : NqTailE b w w
+  | ch (i w : Nat) (c : UInt8) : b[i]? = some c → isTokch c = true → NqTailE b (i + 1) w → NqTailE b i w
+  | lws (i n w : Nat) (c : UInt8) : Lws b i n → i < n → b[n]? = some c → isLWSch c = false → NqTailE b n w → NqTailE b i w
+  | q (i k1 w : Nat) : b[i]? = some 34 → NaQBody b (i + 1) k1 → NqTailE b (k1 + 1) w → NqTailE b i w
+
+theorem NqTailE.le {b : Buf} {i w : Nat} (H : NqTailE b i w) : i ≤ w := by
+  induction H with
+  | stop w => exact Nat.le_refl _
+  | ch i w c _ _ _ ih => omega
+  | lws i n w c _ _ _ _ _ ih => omega
+  | q i k1 w _ hq _ ih => have := hq.le; omega
+
+theorem n3_taile_run (h : Nat) (b : Buf) (o x : Nat) {i w : Nat} (H : NqTailE b i w) :
+    runLoop (naMachine h) b i (nmSt o x) = runLoop (naMachine h) b w (nmSt o x) := by
+  induction H with
+  | stop w => rfl
+  | ch i w c hc ht _ ih =>
+    rw [runLoop_cont (naMachine h) hc (by exact stepA_nm_tok h b i c (nmSt o x) rfl ht), if_pos (by omega)]
+    exact ih
+  | lws i n w c hl hlt hn hcl _ ih =>
+    rw [na_skip_lws h b _ hl hn hcl (fun c' hc' => stepA_nm_lws h b i c' _ rfl hc')]
+    exact ih
+  | q i k1 w hc hq _ ih =>
+    have := hq.le
+    have hstep : naStep h b i 34 (nmSt o x) = .cont (i + 1) ({ v := ⟨o, x⟩, s := o, state := .quoted } : PFromBody) := by
+      rw [stepA_nm_quote h b i _ rfl]; rfl
+    rw [runLoop_cont (naMachine h) hc (by exact hstep), if_pos (by omega), na_name_quoted h b o x hq]
+    exact ih
+
+/-- a value that is a display name and nothing else, up to `w`: a quoted string and more name; or a token, white space,
+    and then a token byte or a quoted string and more name -/
+inductive NqNameOnly (b : Buf) (o : Nat) : Nat → Prop
+  | afterQ (k1 w : Nat) : b[o]? = some 34 → NaQBody b (o + 1) k1 → NqTailE b (k1 + 1) w → NqNameOnly b o w
+  | tokTok (t n w : Nat) (c c' : UInt8) : b[o]? = some c → isTok1 c = true → Run isTokch b (o + 1) t → o + 1 ≤ t →
+      Lws b t n → t < n → b[n]? = some c' → isTok1 c' = true → NqTailE b (n + 1) w → NqNameOnly b o w
+  | tokQ (t n k1 w : Nat) (c : UInt8) : b[o]? = some c → isTok1 c = true → Run isTokch b (o + 1) t → o + 1 ≤ t →
+      Lws b t n → t < n → b[n]? = some 34 → NaQBody b (n + 1) k1 → NqTailE b (k1 + 1) w → NqNameOnly b o w
+
+theorem NqNameOnly.run (h : Nat) {b : Buf} {o w : Nat} (H : NqNameOnly b o w) (hfit : b.size ≤ 65535) :
+    o < w ∧ ∃ x, runLoop (naMachine h) b o {} = runLoop (naMachine h) b w (nmSt o x) := by
+  rcases H with ⟨k1, _, h0, hq, ht⟩ | ⟨t, n, _, c, c', h0, h1, hr, hot, hl, hlt, hn, h1', ht⟩ |
+    ⟨t, n, k1, _, c, h0, h1, hr, hot, hl, hlt, hn, hq, ht⟩
+  · have := hq.le; have := ht.le
+    refine ⟨by omega, 0, ?_⟩
+    have hsz := get?_lt h0
+    have hstep : naStep h b o 34 {} = .cont (o + 1) ({ v := ⟨o, 0⟩, s := o, state := .quoted } : PFromBody) := by
+      rw [stepA_init_quote h b o {} rfl]
+      unfold PFromBody.setV
+      simp only [set_eq o o (Nat.le_refl _) (by omega), setPanics_false o o (Nat.le_refl _), Nat.sub_self]
+      rfl
+    rw [runLoop_cont (naMachine h) h0 (by exact hstep), if_pos (by omega), na_name_quoted h b o 0 hq]
+    exact n3_taile_run h b o 0 ht
+  · have := ht.le
+    have hcl : isLWSch c' = false := (isTokch_iff.1 (isTok1_iff.1 h1').1).1
+    refine ⟨by omega, t - o, ?_⟩
+    rw [na_tok_run h b o t hfit h0 h1 hr hot, na_nu_lws h b o t n hfit (by omega) hl hlt hn hcl]
+    have hstep : naStep h b n c' (nueSt o t) = .cont (n + 1) (nmSt o (t - o)) := by
+      rw [stepA_nue_tok h b n c' _ rfl h1']; rfl
+    rw [runLoop_cont (naMachine h) hn (by exact hstep), if_pos (by omega)]
+    exact n3_taile_run h b o (t - o) ht
+  · have := ht.le; have := hq.le
+    refine ⟨by omega, t - o, ?_⟩
+    rw [na_tok_run h b o t hfit h0 h1 hr hot, na_nu_lws h b o t n hfit (by omega) hl hlt hn (by decide)]
+    have hstep : naStep h b n 34 (nueSt o t) = .cont (n + 1) ({ v := ⟨o, t - o⟩, s := o, state := .quoted } : PFromBody) := by
+      rw [stepA_nue_quote h b n _ rfl]; rfl
+    rw [runLoop_cont (naMachine h) hn (by exact hstep), if_pos (by omega), na_name_quoted h b o (t - o) hq]
+    exact n3_taile_run h b o (t - o) ht
+
+/-- **a display name that is never followed by `<uri>`** (`Bob sip:a@b`, `"Bob" sip:a@b`, … — two or more tokens /
+    quoted strings and then the line end): verdict "bad header" (ErrHdrBad), offset after the line end -/
+theorem n3_name_without_uri (h : Nat) (b : Buf) (o w p e : Nat) (hfit : b.size ≤ 65535) (hn : NqNameOnly b o w)
+    (hl : Lws b w p) (he : Eol b p e) {c2 : UInt8} (h2 : b[e]? = some c2) (hw2 : isWS c2 = false) :
+    (∃ x, parseNameAddrPVal h b o {} = (e, .bad, { v := ⟨o, x⟩, state := .name })) ∧ o < e ∧ e ≤ b.size := by
+  obtain ⟨how, x, hrun⟩ := hn.run h hfit
+  have := hl.le; have hgt := he.gt; have := get?_lt h2
+  refine ⟨⟨x, ?_⟩, by omega, by omega⟩
+  obtain ⟨c0, hc0, hl0⟩ := lws_eol_first hl he
+  have hloop : runLoop (naMachine h) b o {} = (e, .bad, nmSt o x) := by
+    rw [hrun]
+    refine runLoop_done (naMachine h) hc0 ?_
+    show naStep h b w c0 (nmSt o x) = _
+    rw [stepA_nm_lws h b w c0 _ rfl hl0, naLWS_eoh _ (skipLWS_of_lws_eol hl he h2 hw2)]
+    have : p + (e - p) = e := by omega
+    unfold naEOH nmSt
+    simp only [this]
+  rw [n3_parse_of_loop_err h b o hloop (Or.inr rfl)]
+  rfl
+
+/-- `Bob sip:a` CR LF: the hypotheses of `n3_name_without_uri` are satisfiable; "bad header", offset 11 -/
+example : ∃ x, parseNameAddrPVal HdrFrom "Bob sip:a\r\nX".toUTF8.data 0 {} = (11, .bad, { v := ⟨0, x⟩, state := .name }) :=
+  (n3_name_without_uri HdrFrom "Bob sip:a\r\nX".toUTF8.data 0 9 9 11 (by decide)
+    (.tokTok 3 4 9 66 115 (by decide) (by decide) (run_of_check (by decide)) (by decide)
+      (.ws 3 4 32 (by decide) (by decide) (.nil 4)) (by decide) (by decide) (by decide)
+      (.ch 5 9 105 (by decide) (by decide) (.ch 6 9 112 (by decide) (by decide) (.ch 7 9 58 (by decide) (by decide)
+        (.ch 8 9 97 (by decide) (by decide) (.stop 9))))))
+    (.nil 9) (.crlf 9 (by decide) (by decide)) (c2 := 88) (by decide) (by decide)).1
 
 
 /-! ## (4) bytes after `>` that are ignored; the comma in the single-valued header kinds (From / To) -/
